@@ -38,6 +38,8 @@ func main() {
 	switch cmd {
 	case "merkle":
 		count, err = drive.MerkleReplay(*cases, *out, *seed, *inst)
+	case "rewardbig":
+		count, err = drive.RewardBig(*out, *seed, *n, *depth)
 	case "robust":
 		count, err = drive.RobustRandom(*out, *seed, *n, *depth)
 	case "reimport":
